@@ -15,7 +15,8 @@ if os.environ.get("PYTHONHASHSEED") != "0":
 
 HERE = os.path.dirname(os.path.abspath(__file__))
 sys.path.insert(0, HERE)
-sys.path.insert(0, "/repo")          # the implementation under test: /repo's working tree
+sys.path.insert(0, os.environ.get("VERIF_REPO", "/repo"))   # implementation under test: /repo's working tree
+# (VERIF_REPO points development runs at a scratch copy; registered commands never set it)
 sys.dont_write_bytecode = True
 
 import core  # noqa: E402
